@@ -1,6 +1,7 @@
 package main
 
 import (
+	"os"
 	"fmt"
 	"go/constant"
 	"go/token"
@@ -366,6 +367,18 @@ func (env *Env) eqSeq(a SV, ai string, b SV, bi string, n string) string {
 		specFail("eqseq needs slices of scalars")
 	}
 	ka, kb := leaves(sa.Elem())[0].kind, leaves(sb.Elem())[0].kind
+	// a window of small literal length: element by element, no quantifier
+	if lv, isLit := isLit(n); isLit && lv.Sign() >= 0 && lv.Cmp(big.NewInt(8)) <= 0 && env.hyp {
+		var eqs []string
+		for k := 0; k < int(lv.Int64()); k++ {
+			va := env.x.load(env.cur, a.t[0], c.add(c.add(a.t[1], ai), fmt.Sprint(k)), sa.Elem())[0]
+			vb := env.x.load(env.cur, b.t[0], c.add(c.add(b.t[1], bi), fmt.Sprint(k)), sb.Elem())[0]
+			eqs = append(eqs, fmt.Sprintf("(= %s %s)", va, vb))
+		}
+		_ = ka
+		_ = kb
+		return c.B("(and %s true)", strings.Join(eqs, " "))
+	}
 	// pin the pieces to constants so that they can appear under the binder
 	ao, aoff := env.x.pinRaw(a.t[0]), env.x.pinRaw(c.I("(+ %s %s)", a.t[1], ai))
 	bo, boff := env.x.pinRaw(b.t[0]), env.x.pinRaw(c.I("(+ %s %s)", b.t[1], bi))
@@ -821,6 +834,44 @@ func (e *Exec) localByName(s *State, fn *ssa.Function, name string) (SV, bool) {
 		if p.Name() == name {
 			if r, ok := s.regs[p]; ok {
 				return SV{t: r, typ: p.Type()}, true
+			}
+		}
+	}
+	// an inlined callee's invariant may speak about the variables of the function it is inlined into
+	if e.root != nil && e.root.fn != fn && fn.Parent() == nil {
+		if v, ok := e.localByName(s, e.root.fn, name); ok {
+			return v, true
+		}
+		for i := len(s.outer) - 1; i >= 0; i-- {
+			if os.Getenv("VERIF_DEBUG") != "" {
+				for v := range s.outer[i] {
+					if a, ok := v.(*ssa.Alloc); ok {
+						fmt.Fprintf(os.Stderr, "outer[%d] alloc %q parent %v\n", i, a.Comment, a.Parent())
+					}
+					if pp, ok := v.(*ssa.Parameter); ok {
+						fmt.Fprintf(os.Stderr, "outer[%d] param %q\n", i, pp.Name())
+					}
+				}
+			}
+			var best *ssa.Alloc
+			for v, r := range s.outer[i] {
+				if a, ok := v.(*ssa.Alloc); ok && a.Comment == name && a.Parent() == e.root.fn && r != nil {
+					if best == nil || a.Pos() > best.Pos() {
+						best = a
+					}
+				}
+			}
+			if best != nil {
+				r := s.outer[i][best]
+				et := best.Type().(*types.Pointer).Elem()
+				return SV{t: e.load(s, r[0], r[1], et), typ: et}, true
+			}
+			for _, p := range e.root.fn.Params {
+				if p.Name() == name {
+					if r, ok := s.outer[i][p]; ok {
+						return SV{t: r, typ: p.Type()}, true
+					}
+				}
 			}
 		}
 	}
